@@ -54,6 +54,8 @@ int remote_dep_dequeue_send(parsec_execution_stream_t *e, int rank, parsec_remot
     return 1;
 }
 int parsec_taskpool_update_runtime_nbtask(parsec_taskpool_t *t, int32_t n) { (void)t; (void)n; return 0; }
+/* never reached (outputs carry no parsec_data_copy_t in this harness); defined for the native link */
+int parsec_data_release_self_contained_data(parsec_data_t *d) { (void)d; VASSERTM(0, "no payload copy is released by the relay"); return 0; }
 static int stub_oms(parsec_taskpool_t *t, int dst, parsec_remote_deps_t *rd) { (void)t; (void)dst; (void)rd; return 1; }
 
 /* successor iterator of the producer task class (what ptgpp generates from the JDF): output k
